@@ -24,6 +24,7 @@ import (
 	"sort"
 	"strings"
 	"text/template"
+	"syscall"
 	"time"
 
 	"wa-lang.org/wa/internal/3rdparty/wazero"
@@ -161,12 +162,28 @@ func call(fn api.Function, arg int32) callResult {
 		}
 		ch <- callResult{r: r}
 	}()
-	select {
-	case r := <-ch:
-		return r
-	case <-time.After(3 * time.Second):
-		return callResult{hang: true}
+	// a hang is a call that has burnt 3 s of CPU time, or 60 s of wall time, without returning: on a loaded machine a call
+	// that needs microseconds can be kept off the processor for seconds, so wall time alone does not decide
+	cpu0 := cpuTime()
+	t0 := time.Now()
+	tick := time.NewTicker(100 * time.Millisecond)
+	defer tick.Stop()
+	for {
+		select {
+		case r := <-ch:
+			return r
+		case <-tick.C:
+			if cpuTime()-cpu0 > 3*time.Second || time.Since(t0) > 60*time.Second {
+				return callResult{hang: true}
+			}
+		}
 	}
+}
+
+func cpuTime() time.Duration {
+	var ru syscall.Rusage
+	syscall.Getrusage(syscall.RUSAGE_SELF, &ru)
+	return time.Duration(ru.Utime.Nano() + ru.Stime.Nano())
 }
 
 func canaryByte(p int32, i int) byte { return byte(0xA5 ^ byte(p>>3) ^ byte(i*7)) | 1 }
